@@ -94,11 +94,20 @@ def gen_flag(rng):
 
 
 def constructible(cls):
+    """'Any combination of flags': the values that ARE a union of members. cls(v) alone is no criterion - modern Pythons hand out a
+    pseudo-member for any v inside the mask, also for a bit that exists only inside a multi-bit member (defect #86)."""
+    vals = [m.value for m in cls.__members__.values()]
     mask = 0
-    for m in cls.__members__.values():
-        mask |= m.value
+    for v in vals:
+        mask |= v
     out = []
     for v in range(mask + 1):
+        acc = 0
+        for mv in vals:
+            if mv & ~v == 0:
+                acc |= mv
+        if acc != v:
+            continue
         try:
             out.append(cls(v))
         except ValueError:
@@ -403,4 +412,107 @@ def _str_subclass_is_a_str(ctx):
                                   f"flag_by_member_names(allow_single_value={single}): {datum!r} ({type(datum).__name__}) -> {got!r}, the plain str {plain!r} -> {ref!r}", {"single": single})
 
 
-DIRECTED = {"documented-refusals": _refusals, "zero-member-multibit-unhashable": _witnesses, "str-subclass-is-a-str": _str_subclass_is_a_str}
+def _lookalike_classes_through_one_provider(ctx):
+    """One provider object (enum_by_name() / flag_by_member_names() without a class predicate, or the builtin exact-value providers) serves
+    every enum class of a retort: two classes whose members EQUAL each other pairwise (int / str mix-ins with the same values, other
+    names) must each get their own table, in either order of first use (seeded change: by-name mapping memoised on the tuple of members)."""
+    pairs = [
+        ("IntEnum", enum.IntEnum("Priority", {"LOW": 1, "HIGH": 2}), enum.IntEnum("Weekday", {"MONDAY": 1, "TUESDAY": 2})),
+        ("str-mixin", enum.Enum("Color", {"RED": "r", "GREEN": "g"}, type=str), enum.Enum("Signal", {"STOP": "r", "GO": "g"}, type=str)),
+        ("plain", enum.Enum("Left", {"A": 1, "B": 2}), enum.Enum("Right", {"X": 1, "Y": 2})),
+        ("IntFlag", enum.IntFlag("Perm", {"R": 1, "W": 2, "X": 4}), enum.IntFlag("Mode", {"IN": 1, "OUT": 2, "APPEND": 4})),
+        ("Flag", enum.Flag("FPerm", {"R": 1, "W": 2}), enum.Flag("FMode", {"IN": 1, "OUT": 2})),
+    ]
+    for label, A, B in pairs:
+        is_flag = issubclass(A, enum.Flag)
+        provs = [("builtin", lambda: [])]
+        if is_flag:
+            provs += [("flag_by_member_names()", lambda: [flag_by_member_names()]), ("flag_by_exact_value()", lambda: [flag_by_exact_value()])]
+        else:
+            provs += [("enum_by_name()", lambda: [enum_by_name()]), ("enum_by_name(CAMEL)", lambda: [enum_by_name(name_style=NameStyle.CAMEL)]), ("enum_by_exact_value()", lambda: [enum_by_exact_value()])]
+        for pname, mk in provs:
+            for order in ((A, B), (B, A)):
+                r = Retort(recipe=mk())
+                fresh = {cls: Retort(recipe=mk()) for cls in order}
+                for cls in order:
+                    members = list(cls) + ([cls(3)] if is_flag else [])
+                    for m in members:
+                        got, ref = attempt(r.dump, m, cls), attempt(fresh[cls].dump, m, cls)
+                        ctx.evaluated(("lookalike-classes", label, pname, order[0].__name__, cls.__name__, repr(m)), nontrivial=True)
+                        ctx.count("enum_roundtrips")
+                        info = {"pair": label, "provider": pname, "first": order[0].__name__, "class": cls.__name__}
+                        if got.kind != ref.kind or (got.kind == "ok" and not strict_eq(got.value, ref.value)):
+                            ctx.violation(f"lookalike-class-confused:{pname.split('(')[0]}", f"{pname}, {order[0].__name__} served first: dump({m!r}) = {got!r:.120}, a retort that only knows {cls.__name__} gives {ref!r:.120}", info)
+                            continue
+                        if got.kind != "ok":
+                            continue
+                        back = attempt(r.load, got.value, cls)
+                        if back.kind != "ok" or back.value is not m and not (is_flag and back.value == m and type(back.value) is cls):
+                            ctx.violation(f"lookalike-class-confused:{pname.split('(')[0]}", f"{pname}, {order[0].__name__} served first: load(dump({m!r})) = load({got.value!r}) -> {back!r:.120}", info)
+
+
+def _unhashable_members(ctx):
+    """Known finding: an Enum with a dataclass mix-in (the 'dataclass support' pattern of the enum HOWTO) has UNHASHABLE members
+    (dataclass(eq=True) sets __hash__ = None); the exact-value dumper and the by-name tables are dicts keyed by member."""
+    from dataclasses import dataclass  # noqa: PLC0415
+
+    @dataclass
+    class CreatureData:
+        size: str
+        legs: int
+
+    class Creature(CreatureData, enum.Enum):
+        BEETLE = "small", 6
+        DOG = "medium", 4
+    for pname, prov in (("enum_by_exact_value", []), ("enum_by_name", [enum_by_name()])):
+        r = Retort(recipe=prov)
+        for what, fn in (("loader", r.get_loader), ("dumper", r.get_dumper)):
+            made = attempt(fn, Creature)
+            ctx.evaluated(("unhashable-members", pname, what), nontrivial=True)
+            ctx.count("enum_roundtrips")
+            if made.kind != "ok":
+                ctx.violation(f"creation-failed:unhashable-members:{type(made.exc).__name__}", f"{pname} {what} for an Enum with a dataclass mix-in: {made.exc!r:.200}", {"provider": pname, "what": what})
+                continue
+            if what == "dumper":
+                for m in Creature:
+                    d = attempt(made.value, m)
+                    back = attempt(r.load, d.value, Creature) if d.kind == "ok" else d
+                    if back.kind != "ok" or back.value is not m:
+                        ctx.violation(f"not-a-bijection:{pname}:unhashable-members", f"{pname}: {m!r} -> {d!r:.100} -> {back!r:.100}", {"provider": pname})
+
+
+def _big_bits_and_dependent_bits(ctx):
+    """Bits beyond the exact range of a float (single-bit members were recognised with math.log2: defect #85) and bits that exist only
+    inside a multi-bit member, also under boundary=KEEP (defect #86)."""
+    hi = 1 << 53
+    for order in (("BOTH", "LOW", "HIGH"), ("LOW", "HIGH", "BOTH"), ("HIGH", "BOTH", "LOW")):
+        vals = {"BOTH": hi | 1, "LOW": 1, "HIGH": hi}
+        Big = enum.Flag("Big", {k: vals[k] for k in order})
+        for compound in (False, True):
+            for dt, sc in MODES[:2]:
+                r = make_retort(dt, sc, [flag_by_member_names(allow_compound=compound)])
+                info = {"class": f"Big({', '.join(order)})", "allow_compound": compound}
+                for x in (Big.LOW, Big.HIGH, Big.LOW | Big.HIGH):
+                    d = attempt(r.dump, x, Big)
+                    ctx.evaluated(("big-bits", order, compound, x.value, dt.name, sc), nontrivial=True)
+                    ctx.count("flag_roundtrips")
+                    back = attempt(r.load, d.value, Big) if d.kind == "ok" else d
+                    legal = {"LOW", "HIGH"} | ({"BOTH"} if compound else set())
+                    if d.kind != "ok" or not isinstance(d.value, list) or not set(d.value) <= legal or back.kind != "ok" or back.value != x:
+                        ctx.violation("not-a-bijection:flag_by_member_names:big-bits", f"allow_compound={compound}, members {order}: {x!r} -> {d!r:.100} -> {back!r:.100}", info)
+                out = attempt(r.load, ["BOTH"], Big)
+                ctx.count("flag_candidates")
+                if compound and (out.kind != "ok" or out.value != Big.BOTH):
+                    ctx.violation("representation-rejected:flag_by_member_names", f"allow_compound=True: ['BOTH'] -> {out!r:.120}", info)
+                if not compound and out.kind == "ok":
+                    ctx.violation("non-representation-accepted:flag_by_member_names:compound-name", f"allow_compound=False: the compound name ['BOTH'] loaded as {out.value!r}", info)
+                elif not compound and out.kind != "load_error":
+                    ctx.violation(f"non-loaderror:flag_by_member_names:{type(out.exc).__name__}", f"['BOTH'] rejected with {out.exc!r}", info)
+    check_flag_exact(ctx, enum.Flag("MB", {"A": 1, "BC": 6}), "dependent-bits", MODES[:2])
+    check_flag_exact(ctx, enum.Flag("MB2", {"AB": 3, "CD": 12, "E": 16}), "dependent-bits", MODES[:2])
+    if hasattr(enum, "KEEP"):
+        check_flag_exact(ctx, enum.Flag("K", {"A": 1, "ALL": 0xFF}, boundary=enum.KEEP), "dependent-bits-keep", MODES[:2])
+        check_flag_exact(ctx, enum.IntFlag("KI", {"A": 1, "BCD": 14}), "dependent-bits-intflag", MODES[:2])
+
+
+DIRECTED = {"unhashable-members": _unhashable_members, "big-bits-and-dependent-bits": _big_bits_and_dependent_bits, "lookalike-classes-through-one-provider": _lookalike_classes_through_one_provider, "documented-refusals": _refusals, "zero-member-multibit-unhashable": _witnesses, "str-subclass-is-a-str": _str_subclass_is_a_str}
